@@ -34,6 +34,12 @@ fn header_variant(name: &str, v: u16) -> String {
     match v % 6 { 0 => name.to_string(), 1 => name.to_uppercase(), 2 => format!(" {name} "), 3 => name.split(' ').map(|w| { let mut c = w.chars(); match c.next() { Some(f) => f.to_uppercase().collect::<String>() + c.as_str(), None => String::new() } }).collect::<Vec<_>>().join(" "), 4 => format!("{name}  "), _ => format!("\t{}", name.to_uppercase()) }
 }
 
+/// File names: the order files are GIVEN in counts, not their names - most layouts use names whose text order differs from it.
+fn file_name(f: usize, v: u16, nfiles: usize) -> String {
+    const POOL: [&str; 7] = ["questrade.csv", "ibkr.csv", "9.csv", "10.csv", "Z acct.csv", "a.csv", "2019.csv"];
+    match v % 4 { 0 => format!("part{f}.csv"), 1 => format!("part{}.csv", nfiles - f), _ => POOL[(v as usize / 4 + f) % POOL.len()].to_string() }
+}
+
 pub fn relayout(rows: &[HRow], seeds: &[u16], tags: &mut Vec<String>) -> Vec<(String, String)> {
     let s = |i: usize| seeds[i % seeds.len()];
     let permuted = if s(0) % 4 == 0 { rows.to_vec() } else { admissible_permutation(rows, &seeds[1..]) };
@@ -67,8 +73,9 @@ pub fn relayout(rows: &[HRow], seeds: &[u16], tags: &mut Vec<String>) -> Vec<(St
             text += &cells.join(","); text.push('\n');
         }
         if s(90 + f) % 3 == 0 { text = text.replace('\n', "\r\n"); tags.push("crlf".into()); }
-        files.push((format!("part{f}.csv"), text));
+        files.push((file_name(f, s(95), nfiles), text));
     }
+    if files.windows(2).any(|w| w[0].0 > w[1].0) { tags.push("file-names-not-in-order".into()); }
     if nfiles > 1 { tags.push("several-files".into()); }
     files
 }
@@ -123,7 +130,7 @@ fn check(c: &LayoutCase, obs: &mut Obs) -> Verdict {
 }
 
 pub fn def() -> PropDef {
-    let mut d = PropDef::new("C07", "a generated input (ledger generator, one file, canonical columns) and a generated re-layout of the same rows: 1-5 files in order, per-file column permutation, header case/padding variants, 0-3 unrecognised columns (named, or with an empty / blank header cell) with junk cells (including cells starting with '#'), memos starting with '#', '=' or a quote, optional columns absent when empty, legacy 'date' header, padded cells, CRLF line ends, and a random row permutation constrained to keep the relative order of rows of one security settling on one date; in a third of the cases the trade dates of rows without a rate look-up are moved as well (only the trade-date column may change). Every cell of every security table, footer, aggregate table and (in half the cases) the total-costs tables must be identical in full precision; notes compared as multisets. Non-trivial = >= 2 files AND permuted columns AND at least one pair of same-security same-day rows. Distinct = distinct case content.");
+    let mut d = PropDef::new("C07", "a generated input (ledger generator, one file, canonical columns) and a generated re-layout of the same rows: 1-5 files in order (file names mostly NOT in the text order of the order given: reversed numbering, broker-style names), per-file column permutation, header case/padding variants, 0-3 unrecognised columns (named, or with an empty / blank header cell) with junk cells (including cells starting with '#'), memos starting with '#', '=' or a quote, optional columns absent when empty, legacy 'date' header, padded cells, CRLF line ends, and a random row permutation constrained to keep the relative order of rows of one security settling on one date; in a third of the cases the trade dates of rows without a rate look-up are moved as well (only the trade-date column may change). Every cell of every security table, footer, aggregate table and (in half the cases) the total-costs tables must be identical in full precision; notes compared as multisets. Non-trivial = >= 2 files AND permuted columns AND at least one pair of same-security same-day rows. Distinct = distinct case content.");
     d.assumptions = vec!["the order of notes is C09's business and ignored here"];
     d.subs.push(Box::new(Sub::<LayoutCase> { name: "relayout", cases_quick: 50_000, cases_thorough: 800_000, strategy: Box::new(strategy), to_json: LayoutCase::to_json, from_json: LayoutCase::from_json, check }));
     d
